@@ -1,5 +1,5 @@
-\* quick: the cache with every named deviation repaired is transparent (exhaustive, bounded)
-CONSTANTS NK = 3  Cap = 2  MaxH = 3  Restarts = FALSE  RecordHist = FALSE  SimDepth = 0
+\* thorough: the repaired cache is transparent; capacity 3, 4 blocks, restarts
+CONSTANTS NK = 3  Cap = 3  MaxH = 4  Restarts = TRUE  RecordHist = FALSE  SimDepth = 0
 CONSTANT Vals <- V1
 CONSTANT Dev <- DevNone
 INIT Init
